@@ -134,6 +134,8 @@ class Interp:
         if self.depth >= self.max_depth:
             return [(TOP, [], "limit", dict(self.mstate))]
         a = list(args)
+        if getattr(self, "cur_env", None) is not None:
+            a = [self.freeze(self.cur_env, x) for x in a]
         body = fn.body
         if body.argc != len(a):
             if len(a) < body.argc:
@@ -584,6 +586,7 @@ class Interp:
                     continue
                 if k == "call":
                     f = t["f"]
+                    self.cur_env = env
                     args = [self.operand(env, a) for a in t["args"]]
                     ckey = f.get("resolved", {}).get("key") or f.get("key") or f.get("kind")
                     outs = None
@@ -794,6 +797,18 @@ def std_oracle(interp, env, f, args, t, bb, path):
                 return math.copysign(1.0, x) > 0
             if name == "abs":
                 return abs(x)
+            if name in ("powi", "powf") and len(args) == 2 and isinstance(deref(args[1]), (int, float)):
+                try:
+                    return x ** deref(args[1])
+                except Exception:
+                    return TOP
+            if name == "sqrt":
+                return x ** 0.5 if x >= 0 else math.nan
+            if name == "exp":
+                try:
+                    return math.exp(x)
+                except OverflowError:
+                    return math.inf
             if name in ("min", "max", "clamp") and all(isinstance(deref(z), (int, float)) for z in args[1:]):
                 ys = [float(deref(z)) for z in args[1:]]
                 if name == "min":
